@@ -819,7 +819,7 @@ static int recovery_from(const struct dg_cfg *c, int sync_risk, size_t *dmg_end_
 			if (h >= strm_len) return -1;
 			if (h >= dmg_end) {
 				for (i = 0; i < n_items; i++)
-					if (items[i].off == h && items[i].pkt >= 0 && items[i].first && !items[i].damaged) break;
+					if (items[i].off == h && items[i].pkt >= 0 && items[i].first && !(items[i].damaged & 1)) break;   /* mark 2 = intact packet right after a removed one */
 				if (i < n_items) {
 					int k, clean = 1;
 					for (k = i; k < n_items; k++) if (items[k].pkt < 0 || (items[k].damaged & 1)) clean = 0;
